@@ -91,7 +91,7 @@ def cmd_check(a):
                         j.name, r.get('status'), r.get('paths'), r.get('discharged'), r.get('obligations'),
                         r.get('n_violations'), r.get('n_known'), r.get('wall_s', 0), r.get('reason', '')[:200]), flush=True)
         # ---- verdicts
-        violations, known_lines, harness_errors, inconclusive = [], [], [], []
+        violations, known_lines, harness_errors, inconclusive, known_unreproduced = [], [], [], [], []
         for j in jobs:
             r = results[j.name]
             if r['status'] == 'error':
@@ -123,7 +123,9 @@ def cmd_check(a):
                 if rc == 4:
                     known_lines.append((k['finding'], k['obligation'], k['inputs']))
                 else:
-                    harness_errors.append('%s: listed finding %s: solver witness did not reproduce (%s)' % (j.name, k['finding'], line[:300]))
+                    # a listed deviation that shows only under an abstraction (e.g. an all-zero digest of an uninterpreted
+                    # hash) is not reported and is not an error: nothing is suppressed by it either
+                    known_unreproduced.append('%s: %s on %s' % (j.name, k['finding'], k['obligation']))
         from vtlib import api
         printed = set()
         for fid, ob, inp in known_lines:
@@ -169,7 +171,7 @@ def cmd_check(a):
                 outside_bounds=getattr(h, 'OUTSIDE', ''),
                 engines=sorted(set(j.engine for j in jobs)),
                 known_findings_shown=sorted(printed),
-                inconclusive=inconclusive, harness_errors=harness_errors,
+                inconclusive=inconclusive, harness_errors=harness_errors, known_witness_not_reproduced=known_unreproduced[:20],
                 per_job={j.name: {k: results[j.name].get(k) for k in ('status', 'engine', 'paths', 'aborted', 'decisions', 'queries', 'solver_s', 'obligations', 'discharged', 'validated', 'cuts', 'cut_reasons', 'n_violations', 'n_known', 'wall_s', 'W', 'note', 'params', 'reason', 'reached') if results[j.name].get(k) not in (None, {}, '')} for j in jobs},
                 explanation='states = explored execution paths of the real functions (CrossHair conditions count 1 each); transitions = branch decisions taken by the path scheduler; every obligation is the SMT query path_condition AND axioms AND NOT property; discharged = unsat.',
             ),
